@@ -131,21 +131,27 @@ def shard(p):
             meta.append(("concat", w, None))
         for _ in range(p["n_expr"]):
             k = rng.randint(2, 5)
-            es, keys = [], set()
+            es, keys = [], {}
             for _ in range(k):
                 e = rng.choice(single)
                 if e["key"] in keys:
-                    continue
-                keys.add(e["key"])
+                    if rng.random() < 0.5:
+                        continue
+                    e = keys[e["key"]]          # the same word again (same prefix): powers accumulate
+                keys[e["key"]] = e
                 es.append(e)
+            if rng.random() < 0.15:
+                es.append(rng.choice(es))       # a repeated unit on purpose: m/m^2, s*s^2, ...
             if len(es) < 2:
                 continue
-            slash_at = rng.randint(1, len(es) - 1) if rng.random() < 0.6 else None
+            slash_at = {rng.randint(1, len(es) - 1)} if rng.random() < 0.6 else set()
+            if slash_at and len(es) > 2 and rng.random() < 0.25:
+                slash_at.add(rng.randint(1, len(es) - 1))      # a second `/`: everything after the first one stays inverted
             text, sign, want_v, want_d = "", 1, F(1), R.ZERO_DIMS
             parts_w = []
             for i, e in enumerate(es):
                 if i:
-                    if slash_at == i:
+                    if i in slash_at:
                         text += "/"
                         sign = -1
                     else:
@@ -182,7 +188,10 @@ def shard(p):
             else:
                 wv, wd, wp = want
                 if (sv, dims) != (wv, wd):
-                    acc.violate("c05:expression-structure", "`1 %s` is %s [%s] in SI; multiplying/inverting/raising as written gives %s [%s]" % (text, sv, G.si.fmt_dims(dims), wv, G.si.fmt_dims(wd)), dict(case, expected_parts=wp))
+                    words_ = [w for w in text.replace("/", " ").replace("*", " ").split() if w]
+                    names_ = [w.split("^")[0] for w in words_]
+                    kind_ = ("repeated-unit" if len(set(names_)) < len(names_) else "") + ("two-slashes" if text.count("/") > 1 else "")
+                    acc.violate("c05:expression-structure" + (":" + kind_ if kind_ else ""), "`1 %s` is %s [%s] in SI; multiplying/inverting/raising as written gives %s [%s]" % (text, sv, G.si.fmt_dims(dims), wv, G.si.fmt_dims(wd)), dict(case, expected_parts=wp))
                 else:
                     acc.sample({"unit_expression": text, "read_as": parts}, cap=1)
     finally:
